@@ -161,3 +161,55 @@ func TapCounts(l *evlog.Log, r *CaseResult) {
 		l.Max("max:key_phases", int64(max(tp.KeyPhases[0], tp.KeyPhases[1])))
 	}
 }
+
+// WireReporter reports the wire observer's anomalies that refute property prop (sig prefix
+// "CNN|wire|...") plus, for C05, genuine packets the independent observer could not open.
+// Everything else a case shows belongs to other properties and is ignored here.
+func WireReporter(l *evlog.Log, prop string) Reporter {
+	return func(c *evlog.Case, cc *ConnCase, r *CaseResult) {
+		fp := ""
+		checks := int64(0)
+		for _, tp := range r.Taps {
+			switch prop {
+			case "C04":
+				checks += tp.Counts["c04_stream_limit_checks"] + tp.Counts["c04_conn_limit_checks"]
+			case "C07":
+				checks += tp.Counts["c07_ack_frames_checked"]
+			case "C05":
+				for k, v := range tp.Counts {
+					if len(k) > 4 && k[:4] == "pkt_" {
+						checks += v
+					}
+				}
+			}
+		}
+		if checks > 0 {
+			fp = cc.Name
+		}
+		c.Eval(fp)
+		TapCounts(l, r)
+		l.Count("wire_checks", checks)
+		l.Count("faults_applied", int64(r.FaultsApplied))
+		for _, tp := range r.Taps {
+			for _, a := range tp.Anomalies {
+				if a.Prop == prop {
+					c.Violation(a.Sig, a.Detail, map[string]any{"wire": tp.Describe(40), "router": r.RouterLog})
+				}
+			}
+			if prop == "C05" && tp.Unopened > 0 {
+				// which packets could the observer not open?
+				var ex []string
+				for k, v := range tp.Counts {
+					if len(k) > 9 && k[:9] == "unopened_" && v > 0 {
+						ex = append(ex, fmt.Sprintf("%s=%d", k, v))
+					}
+				}
+				c.Violation("C05|wire|observer-cannot-open-genuine-packet", fmt.Sprintf("%d packet(s) emitted by the endpoints could not be opened with keys derived independently from the TLS key log: %v", tp.Unopened, ex),
+					map[string]any{"wire": tp.Describe(40)})
+			}
+		}
+		if checks > 0 {
+			c.Sample("wire", map[string]any{"case": cc.Name, "checks": checks, "faults_applied": r.FaultsApplied})
+		}
+	}
+}
